@@ -603,6 +603,9 @@ def exec_step(step, sess, chains, audit):
         elif what == 'deps':
             obs['deps'] = {n: sorted(x.fullname for x in c.required_tasks(t)) for n, t in c.tasks.items()}
             obs['dependents'] = {n: sorted(x.fullname for x in c.dependent_tasks(t)) for n, t in c.tasks.items()}
+            # (object identities: a task shared between chains keeps the full name of the chain that created it, names alone can be ambiguous)
+            obs['deps_ids'] = {n: sorted(id(x) for x in c.required_tasks(t)) for n, t in c.tasks.items()}
+            obs['dependents_ids'] = {n: sorted(id(x) for x in c.dependent_tasks(t)) for n, t in c.tasks.items()}
     elif op == 'arm_fault':
         fn = get_chain().tasks[step['task']].fullname     # a shared object runs under its own full name
         on_ = rt.STATE['invocations'].get(fn, 0) + step.get('after', 1)
